@@ -108,6 +108,7 @@ type expectedGetWithPrefix struct {
 	filters     []FilterFn
 	expectedKey []byte
 	expectedTx  uint64 // 0 used to denote non-existence
+	ownEntry    bool   // the entry found was written by the transaction itself (expectedKey is its key)
 }
 
 type EntrySpec struct {
@@ -580,6 +581,25 @@ func (tx *OngoingTx) GetWithPrefixAndFilters(ctx context.Context, prefix, neq []
 		tx.mvccReadSet.readsetSize++
 	}
 
+	if !tx.IsReadOnly() && valRef.Tx() == 0 && !bytes.Equal(key, prefix) {
+		// the first entry with the prefix is one the transaction wrote itself: it stays the
+		// answer only as long as no committed entry sorts before it (none can if the key is
+		// the prefix itself)
+		expectedGetWithPrefix := expectedGetWithPrefix{
+			prefix:      cp(prefix),
+			neq:         cp(neq),
+			expectedKey: cp(key),
+			ownEntry:    true,
+		}
+
+		if tx.mvccReadSetLimitReached() {
+			return nil, nil, ErrMVCCReadSetLimitExceeded
+		}
+
+		tx.mvccReadSet.expectedGetsWithPrefix = append(tx.mvccReadSet.expectedGetsWithPrefix, expectedGetWithPrefix)
+		tx.mvccReadSet.readsetSize++
+	}
+
 	return key, valRef, nil
 }
 
@@ -840,6 +860,19 @@ func (tx *OngoingTx) checkPreconditions(ctx context.Context, st *ImmuStore) erro
 
 		for _, e := range tx.mvccReadSet.expectedGetsWithPrefix {
 			if !hasPrefix(e.prefix, txSnap.prefix) {
+				continue
+			}
+
+			if e.ownEntry {
+				// whatever entry (filtered out or not) now precedes the own one would have been
+				// examined first
+				key, _, err := snap.GetWithPrefixAndFilters(ctx, e.prefix, e.neq)
+				if err == nil && bytes.Compare(key, e.expectedKey) < 0 {
+					return ErrTxReadConflict
+				}
+				if err != nil && !errors.Is(err, ErrKeyNotFound) {
+					return err
+				}
 				continue
 			}
 
